@@ -60,18 +60,24 @@ const BENIGN: &[&str] = &[
     "frontend_config", "finalize_definitions", "get_finalized_data", "write_str", "write_fmt",
 ];
 
-struct St {
+struct St<'a> {
     out: Vec<&'static str>,
     err: Option<String>,
     /// token text of a sub-expression not to descend into
     skip: Option<String>,
+    /// methods of the type whose method is inspected: a call on `self` is followed
+    helpers: &'a BTreeMap<String, syn::Block>,
+    depth: usize,
 }
+
+/// methods that translate the instructions of a block (covered per kind by `instrStorage` / target `c12instr`)
+const NOT_FOLLOWED: &[&str] = &["instruction", "block", "entry_block", "define_function"];
 
 fn hook_attr(attrs: &[syn::Attribute]) -> bool {
     attrs.iter().any(|a| a.to_token_stream().to_string().contains("verif-hooks"))
 }
 
-impl<'ast> Visit<'ast> for St {
+impl<'ast> Visit<'ast> for St<'_> {
     fn visit_expr(&mut self, e: &'ast syn::Expr) {
         if let Some(s) = &self.skip {
             if matches!(e, syn::Expr::Match(_) | syn::Expr::ForLoop(_)) && &e.to_token_stream().to_string() == s {
@@ -83,6 +89,22 @@ impl<'ast> Visit<'ast> for St {
     fn visit_expr_method_call(&mut self, m: &'ast syn::ExprMethodCall) {
         syn::visit::visit_expr_method_call(self, m);
         let name = m.method.to_string();
+        let recv = m.receiver.to_token_stream().to_string();
+        if (recv == "self" || recv == "func_gen") && !NOT_FOLLOWED.contains(&name.as_str()) {
+            if let Some(b) = self.helpers.get(&name) {
+                if self.depth > 4 {
+                    self.err = Some(format!("helper recursion too deep at {name}"));
+                    return;
+                }
+                self.depth += 1;
+                let b = b.clone();
+                let skip = self.skip.take();
+                self.visit_block(&b);
+                self.skip = skip;
+                self.depth -= 1;
+                return;
+            }
+        }
         if name == "create_sized_stack_slot" {
             let args = m.args.to_token_stream().to_string();
             self.out.push(if args.contains("ExplicitSlot") { ".stackSlot" } else { ".stackSlotOther" });
@@ -117,8 +139,29 @@ impl<'ast> Visit<'ast> for St {
     }
 }
 
-fn ops_of_expr(e: &syn::Expr, skip: Option<String>) -> Result<Vec<&'static str>, String> {
-    let mut v = St { out: vec![], err: None, skip };
+type Helpers = BTreeMap<String, syn::Block>;
+
+fn methods_of(file: &syn::File, ty_prefix: &str) -> Helpers {
+    let mut h = BTreeMap::new();
+    for it in &file.items {
+        if let syn::Item::Impl(i) = it {
+            let ty = i.self_ty.to_token_stream().to_string().replace(' ', "");
+            if i.trait_.is_none() && ty.starts_with(ty_prefix) {
+                for ii in &i.items {
+                    if let syn::ImplItem::Fn(f) = ii {
+                        if !hook_attr(&f.attrs) {
+                            h.insert(f.sig.ident.to_string(), f.block.clone());
+                        }
+                    }
+                }
+            }
+        }
+    }
+    h
+}
+
+fn ops_of_expr(e: &syn::Expr, skip: Option<String>, helpers: &Helpers) -> Result<Vec<&'static str>, String> {
+    let mut v = St { out: vec![], err: None, skip, helpers, depth: 0 };
     v.visit_expr(e);
     match v.err {
         Some(e) => Err(e),
@@ -126,8 +169,8 @@ fn ops_of_expr(e: &syn::Expr, skip: Option<String>) -> Result<Vec<&'static str>,
     }
 }
 
-fn ops_of_block(b: &syn::Block, skip: Option<String>) -> Result<Vec<&'static str>, String> {
-    let mut v = St { out: vec![], err: None, skip };
+fn ops_of_block(b: &syn::Block, skip: Option<String>, helpers: &Helpers) -> Result<Vec<&'static str>, String> {
+    let mut v = St { out: vec![], err: None, skip, helpers, depth: 0 };
     v.visit_block(b);
     match v.err {
         Some(e) => Err(e),
@@ -244,6 +287,8 @@ fn list(ops: &[&str]) -> String {
 
 pub fn c12frame(repo: &Path) -> Result<String, String> {
     let codegen = find::parse(repo, "src/codegen/mod.rs")?;
+    let mb = methods_of(&codegen, "ModuleBuilder");
+    let fg = methods_of(&codegen, "FuncGen");
 
     // 1. define_function: the match over ValueOrSlot inside the loop over `variables`
     let df = find::func(&codegen, "define_function", Some("ModuleBuilder"))?;
@@ -272,13 +317,13 @@ pub fn c12frame(repo: &Path) -> Result<String, String> {
         };
         let mut ops = vec![];
         if let Some((_, g)) = &a.guard {
-            ops.extend(ops_of_expr(g, None).map_err(|e| format!("define_function, guard of a {cls} arm: {e}"))?);
+            ops.extend(ops_of_expr(g, None, &mb).map_err(|e| format!("define_function, guard of a {cls} arm: {e}"))?);
         }
-        ops.extend(ops_of_expr(&a.body, None).map_err(|e| format!("define_function, {cls} arm: {e}"))?);
+        ops.extend(ops_of_expr(&a.body, None, &mb).map_err(|e| format!("define_function, {cls} arm: {e}"))?);
         arms.push((cls, a.guard.is_some(), ops));
     }
     let skip = syn::Expr::Match(sm.clone()).to_token_stream().to_string();
-    let define_other = ops_of_block(&df.block, Some(skip)).map_err(|e| format!("define_function: {e}"))?;
+    let define_other = ops_of_block(&df.block, Some(skip), &mb).map_err(|e| format!("define_function: {e}"))?;
 
     // 2. entry_block: the loop over `stack_slots`
     let eb = find::func(&codegen, "entry_block", Some("FuncGen"))?;
@@ -286,9 +331,9 @@ pub fn c12frame(repo: &Path) -> Result<String, String> {
     if eloops.len() != 1 {
         return Err(format!("FuncGen::entry_block: {} loops over `stack_slots`", eloops.len()));
     }
-    let entry_loop = ops_of_block(&eloops[0].body, None).map_err(|e| format!("entry_block, slot loop: {e}"))?;
+    let entry_loop = ops_of_block(&eloops[0].body, None, &fg).map_err(|e| format!("entry_block, slot loop: {e}"))?;
     let skip = syn::Expr::ForLoop(eloops[0].clone()).to_token_stream().to_string();
-    let entry_other = ops_of_block(&eb.block, Some(skip)).map_err(|e| format!("entry_block: {e}"))?;
+    let entry_other = ops_of_block(&eb.block, Some(skip), &fg).map_err(|e| format!("entry_block: {e}"))?;
     let mut slot_ty = None;
     for a in &eb.sig.inputs {
         if let syn::FnArg::Typed(t) = a {
@@ -317,7 +362,7 @@ pub fn c12frame(repo: &Path) -> Result<String, String> {
             }
             p => heads.push(pat_head(p)),
         }
-        let ops: Vec<&'static str> = ops_of_expr(&arm.body, None)
+        let ops: Vec<&'static str> = ops_of_expr(&arm.body, None, &fg)
             .map_err(|e| format!("instruction arm {}: {e}", arm.pat.to_token_stream()))?
             .into_iter()
             .filter(|o| *o != ".memOp")
